@@ -80,3 +80,24 @@ PROPS.update({
         rule=COMPOSE_RULE + "at least one retry happened and at least one attempt was rejected before reaching the function (breaker, bulkhead or rate limiter). Observation points: function entry, every listener, fallback functions, completion events.",
         assumptions=COMPOSE_ASSUMPTIONS + ["LastResult/LastError are not compared at observation points where the execution's context is already done (LastError then reports the context error by design)"]),
 })
+
+PROPS["C12"] = dict(
+    pkg="./props/c12_classify",
+    tests=[REGRESS(),
+           T("TestExhaustivePrefix", (8, 0), (8, 0), env={"VERIF_SHARDS": "8"}),
+           T("TestClassifyRandom", (4, 20000), (8, 300000))],
+    fuzz=[dict(name="FuzzClassify", time="120s")],
+    rule="registration lists of HandleErrors/HandleErrorTypes/HandleResult/HandleIf (and AbortOn*/CancelOn*) x outcomes (values 0..3 x 20 errors: nil, sentinels, wrapped once/twice, joined, value- and pointer-receiver types bare/wrapped/joined, marker interface, custom Is, nil Unwrap, unrelated), each evaluated through a fallback, a retry policy, a breaker (execution and RecordResult/RecordError), retry abort conditions and hedge cancel conditions; lists of length 0..2 over a 22-condition alphabet are enumerated exhaustively against all 80 outcomes, longer lists (up to 5) are drawn at random; non-trivial = at least 2 registration kinds of which one matches and one does not, or an error nested at least two levels with some registration; distinct = the case itself",
+    assumptions=["result conditions of abort/cancel lists on outcomes that carry an error are not checked (documentation silent, DESIGN.md L5; counted)",
+                 "results are comparable ints; predicates come from a named finite family evaluated identically by the oracle"],
+)
+
+PROPS["C02"] = dict(
+    pkg="./props/c02_retry",
+    tests=[REGRESS(),
+           T("TestRetrySequential", (6, 8000), (8, 200000)),
+           T("TestRetryShared", (6, 1500), (6, 40000)),
+           T("TestMaxDurationReal", (4, 150), (4, 3000))],
+    rule=COMPOSE_RULE + "at least one retry happened (sequential: a retry policy alone or outermost/innermost of a stack of up to 3, maxRetries/maxAttempts in {0,1,2,3,5,unlimited}, overlapping handle and abort conditions, ReturnLastFailure, max duration unset / always exceeded / never); shared: 2..32 goroutines run different scripts through the same policy instances at once and each is compared with the sequential model of its own script, non-trivial when at least two of them retried with different scripts; real max duration (2..20 ms, unlimited retries): non-trivial when the function sampled an elapsed time beyond the max duration just before returning a failure",
+    assumptions=COMPOSE_ASSUMPTIONS + ["real max-duration trials assert only the sound direction: no attempt after a failure that was returned with the max duration already elapsed"],
+)
